@@ -4,10 +4,7 @@ import importlib, json, os, sys
 VERIF = os.path.dirname(os.path.dirname(os.path.abspath(__file__)))
 sys.path.insert(0, VERIF)
 props = [json.loads(l) for l in open(os.path.join(VERIF, "properties.jsonl"))]
-NA = {
-    "C04": "language equality between a regex and derivre's lazily built derivative automaton over all byte strings: the deciding facts are runtime derivatives inside an external crate; the shape-decidable parts (operator->repetition bounds, UTF-8 flag wiring) are decided under C09/C19",
-    "C05": "equivalence of the Earley recogniser with CFG derivability for all grammars and inputs is an inductive statement about item sets computed at run time; no pairing/ordering/ownership/table clause is a necessary condition that is not simply the algorithm restated (rule shapes of ? * + are decided under C09)",
-}
+NA = {}
 checks, na = [], []
 for p in props:
     pid = p["id"]
